@@ -101,11 +101,16 @@ def replay_path(make_adapter, init_state, steps, free_run=True, obs_out=None):
                 d = Divergence('state', i, acts, json.loads(exp), s, obs)
                 if free_run:
                     # free run: keep feeding the remaining environment actions to the
-                    # real object (no comparison) so the monitor sees what follows
+                    # real object (no comparison) so the monitor sees what follows; an adapter
+                    # may switch to following the implementation's own next steps (set_free)
+                    if hasattr(ad, 'set_free'):
+                        ad.set_free()
                     for act2, _ in steps[i + 1:]:
                         try:
                             o2 = ad.step(act2) or act2
                             obs.append({'act': o2, 'state': _Snap(canon(_norm(ad, ad.project())))})
+                        except Unrealizable:
+                            continue
                         except Exception:
                             break
                 if free_run and hasattr(ad, 'quiesce'):
